@@ -142,7 +142,7 @@ _GC_GENS = [dict(cmd='gen-gochannel-schedules', file='gochannel-schedules.json',
 PROPS['C05'] = dict(_GC, generators=_GC_GENS, design=[D('MCGoChannelImpl','MCGoChannelImpl_blocking.cfg'), D('MCGoChannelImpl','MCGoChannelImpl_batch_blocking.cfg'), D('MCGoChannelImpl','MCGoChannelImpl_batch_blocking_persistent.cfg', workers=8), D('MCGoChannelImpl','MCGoChannelImpl_mut_batchnowait.cfg', expect='fail', violates='BatchOrder'), D('MCGoChannelImpl','MCGoChannelImpl_republish.cfg'), D('MCGoChannelImpl','MCGoChannelImpl_republish_live.cfg'), D('MCGoChannelImpl','MCGoChannelImpl_mut_holdlocks.cfg', expect='fail', violates='NoStuckCall')], rule='runs = one-unsettled scenarios (3 publishers incl. a batch against slow / nacking / mutating consumers, buffers 0,1,5), blocking-publish '
     'scenarios (acks, nacks, never-acking consumer released by cancel or Close, subscriptions coming and going, consumer republishing to another topic, with a pending '
     'Subscribe forced at the wait-for-settlement point) and random programs; non-trivial as C04', min_stats={'scenarios': 80})
-PROPS['C07'] = dict(_GC, race=True, generators=_GC_GENS + [dict(cmd='gen-decorator-schedules', file='decorator-schedules.json', env='VERIF_DECORATOR_SCHEDULES')], traces=dict(_GC['traces'], SubDecoratorTrace=dict(module='SubDecoratorTrace', cfg='SubDecoratorTrace.cfg', timeout=1800)), selftests=[('GoChannelImplTrace_volatile', 'drop', dict(e='hook', point='gochannel.publish.rlocked')), ('GoChannelImplTrace_persistent', 'drop', dict(e='hook', point='gochannel.sub.close.closed')), ('GoChannelTrace', 'drop', dict(e='chanclosed'))], design=[D('MCGoChannelImpl','MCGoChannelImpl_close_blocking.cfg', workers=12, heap='12g'), D('MCGoChannelImpl','MCGoChannelImpl_mut_nillog.cfg', expect='fail', violates='NoPanic'), D('MCGoChannelImpl','MCGoChannelImpl_mut_droplogearly.cfg', expect='fail', violates='NoPanic'), D('MCGoChannelImpl','MCGoChannelImpl_close.cfg', tier='thorough', workers=12, heap='12g', timeout=1800), D('MCGoChannelImpl','MCGoChannelImpl_live.cfg', tier='thorough', workers=12, heap='16g', timeout=3600)], rule='runs = pairwise enumeration: a goroutine parked at every hook point of Publish / the send loop / Subscribe incl. replay / tear-down / '
+PROPS['C07'] = dict(_GC, race=True, generators=_GC_GENS + [dict(cmd='gen-decorator-schedules', file='decorator-schedules.json', env='VERIF_DECORATOR_SCHEDULES')], traces=dict(_GC['traces'], SubDecoratorTrace=dict(module='SubDecoratorTrace', cfg='SubDecoratorTrace.cfg', timeout=1800)), selftests=[('GoChannelImplTrace_volatile', 'drop', dict(e='hook', point='gochannel.publish.rlocked')), ('GoChannelImplTrace_persistent', 'drop', dict(e='hook', point='gochannel.sub.close.closed')), ('GoChannelTrace', 'drop', dict(e='chanclosed'))], design=[D('MCGoChannelImpl','MCGoChannelImpl_close_blocking.cfg', workers=12, heap='12g'), D('MCGoChannelImpl','MCGoChannelImpl_mut_nillog.cfg', expect='fail', violates='NoPanic'), D('MCGoChannelImpl','MCGoChannelImpl_mut_droplogearly.cfg', expect='fail', violates='NoPanic'), D('MCGoChannelImpl','MCGoChannelImpl_mut_tearisclosed.cfg', expect='fail', violates='NoStuckCall'), D('MCGoChannelImpl','MCGoChannelImpl_close.cfg', tier='thorough', workers=12, heap='12g', timeout=1800), D('MCGoChannelImpl','MCGoChannelImpl_live.cfg', tier='thorough', workers=12, heap='16g', timeout=3600)], rule='runs = pairwise enumeration: a goroutine parked at every hook point of Publish / the send loop / Subscribe incl. replay / tear-down / '
     'unsubscribe x {Close, double Close, cancel of either subscription, Publish, Subscribe} x {volatile, persistent (+ blocking variants in thorough)} x {bare, 1 (2) '
     'subscriber decorators}, unread-channel and cancel-mid-stream scenarios with 2 concurrent closers, random programs with concurrent Close; every run ends with Close, '
     'post-Close Publish/Subscribe probes and a goroutine-leak check; non-trivial = gate reached', min_stats={'scenarios': 300, 'gates_reached': 100})
